@@ -233,10 +233,8 @@ func guard(f func() Res) (res Res) {
 }
 
 func errRes(err liquid.SourceError, stage string) Res {
+	// (a stack trace inside an ERROR's text is kept: on HEAD only panic values carry one)
 	msg := err.Error()
-	if i := strings.Index(msg, "\nOriginal stacktrace"); i >= 0 {
-		msg = msg[:i]
-	}
 	return Res{Err: scrub(msg), Path: scrub(err.Path()), Line: err.LineNumber(), Stage: stage, raw: err}
 }
 
